@@ -69,7 +69,8 @@ def main(argv=None):
 
 def run_property(mod, prop, tier, seed, t0, only=None):
     src_root = os.environ.get("PYVC_SRC", "/repo/src")
-    opts = {"timeout_s": 10 if tier == "quick" else 60, "both": tier == "thorough", "witnesses": True}
+    opts = {"timeout_s": 10 if tier == "quick" else 60, "both": tier == "thorough", "witnesses": True,
+            "unit_budget_s": 150 if tier == "quick" else 1500}
     engine._worker_init(src_root, SPEC_PATHS)       # also in the parent: unit enumeration reads the program
     units = mod.units(tier)
     names = [n for n in units if only is None or only in n]
